@@ -55,3 +55,4 @@ META = dict(
     design_ref="DESIGN.md §4 C04",
     technique="CBMC bounded symbolic execution of real tar encoder+decoder composed (round trip), SAT",
 )
+META["text"] += ' Also decided: whole header records of six entry types round trip, long names and targets travel in GNU long records, the tar iterator finds every next header whatever part of a member was consumed and delivers sparse members with their real size.'
